@@ -332,13 +332,15 @@ pub fn monitor_invocation(out : &mut Out, tr : &mut Tracker, inv : &Invocation, 
                         Some(sc_) => tr.ledger.iter().find(|(id, srcs, _)| *id == ident && srcs == sc_).map(|(_, _, outs)| outs.clone()),
                         None => None,
                     };
-                    if let Some(outs) = &remembered
+                    // what this rule's targets will want from the cache: their from-scratch contents wherever the file in place
+                    // is something else. (Computed from the independent evaluator, NOT from the ledger: ruler's own history of a
+                    // rule can outlive the ledger's entry — e.g. after the user deleted ANOTHER rule's history file — and such a
+                    // rule competes for a shared cache entry all the same.)
+                    if let Some(RuleOutcome::Built(cs)) = scratch.as_ref().map(|v| &v[*i])
                     {
-                        let mut sorted_targets = r.targets.clone();
-                        sorted_targets.sort();
-                        for (t, o) in sorted_targets.iter().zip(outs.iter())
+                        for (t, c) in r.targets.iter().zip(cs.iter())
                         {
-                            if files_before.get(t) != Some(o) { wanted.push(o.clone()); }
+                            if files_before.get(t) != Some(c) { wanted.push(c.clone()); }
                         }
                     }
                     per_rule.insert(*i, remembered);
@@ -495,6 +497,20 @@ pub fn monitor_invocation(out : &mut Out, tr : &mut Tracker, inv : &Invocation, 
                 if !missing.is_empty() && inv.verdict.is_ok()
                 {
                     out.violation("C04:failure-not-reported", format!("sources {:?} are missing but the build reports success", missing), replay());
+                }
+                // nothing is recorded for a failed execution: the file-state table on disk has no entry for a target of a
+                // rule that failed in this build
+                if let Some(tbl) = inv.after.files.get(&world::table_path()).and_then(|n| world::bincode_table(&n.content))
+                {
+                    for i in scope.iter()
+                    {
+                        if !matches!(scratch[*i], RuleOutcome::Fails(_)) || !ran.contains_key(i) { continue; }
+                        if let Some(t) = sc.rules[*i].targets.iter().find(|t| tbl.iter().any(|(k, _)| k == t.as_bytes()))
+                        {
+                            out.violation("C04:failed-execution-recorded", format!("the command of {:?} failed in this build, yet the file-state table written afterwards remembers a state for {:?}", sc.rules[*i].targets, t), replay());
+                            break;
+                        }
+                    }
                 }
                 // exactly one error per failed rule (its command exits non-zero or leaves a declared target ungenerated
                 // when run from scratch on the current sources) and per missing leaf; rules that only depend on a
@@ -811,7 +827,10 @@ pub fn histories(ctx : &Ctx, out : &mut Out)
             policy : Policy::Serial,
         };
         let mut r = rng.fork(i as u64);
+        // a fifth of the histories on a file system whose reads come in pieces of 3 bytes
+        crate::memsys::set_default_read_chunk(if i % 5 == 2 { 3 } else { 0 });
         let (ops, obs, builds, ok_builds, _) = run_history(out, &mut r, &params, "hist");
+        crate::memsys::set_default_read_chunk(0);
         emit_case(out, false, params.t0, &ops, &obs, ok_builds > 0);
     }
 }
@@ -1044,6 +1063,36 @@ pub fn dropped_rule(ctx : &Ctx, out : &mut Out)
         out.count("dropped:histories");
         let (obs, _) = run_fixed(out, "dropped", false, 1_000_000, &ops, true, &Policy::Serial, true);
         emit_case(out, false, 1_000_000, &ops, &obs, true);
+        // the same rule written twice (as when two rules files carry a shared rule): the rules are rejected, and a build or
+        // clean of a goal must leave the workspace exactly as it is — in particular the targets of the OTHER rules
+        if sc.rules.len() >= 2
+        {
+            let mut twice = sc.clone();
+            let dup = twice.rules[r.below(twice.rules.len())].clone();
+            twice.rules.insert(0, dup);
+            let mut ops2 = ops.clone();
+            ops2.push(Op::Write(RULES_PATH.to_string(), twice.render().into_bytes()));
+            let goal = r.pick(&sc.all_targets().into_iter().collect::<Vec<String>>()).clone();
+            ops2.push(if r.chance(1, 2) { Op::Clean(Some(goal)) } else { Op::Build(Some(goal)) });
+            let d = Driver::new(ClockMode::Fine, 1_000_000);
+            let mut before = BTreeMap::new();
+            let mut last : Option<Invocation> = None;
+            for (k, op) in ops2.iter().enumerate()
+            {
+                if k + 1 == ops2.len() { before = disk_files(&d.sys.disk()); }
+                match op { Op::Build(_) | Op::Clean(_) => { last = Some(d.invoke(op, Policy::Serial)); }, _ => d.user(op) }
+                d.tick();
+            }
+            let after = disk_files(&d.sys.disk());
+            out.count("dropped:rule-written-twice");
+            if after != before
+            {
+                let changed : Vec<String> = after.iter().filter(|(p, c)| before.get(*p) != Some(c)).map(|(p, _)| p.clone()).chain(before.keys().filter(|p| !after.contains_key(*p)).cloned()).collect();
+                out.violation("C09:touches-out-of-scope-path", format!("a rule is written twice in the rules file (no plan exists); {} changed {:?}; verdict {}", ops2.last().unwrap().describe(), changed, last.map(|i| i.verdict.show()).unwrap_or_default()), replay_json("dropped", false, 1_000_000, &ops2));
+            }
+            let (obs2, _) = run_fixed(out, "dropped", false, 1_000_000, &ops2, true, &Policy::Serial, false);
+            emit_case(out, false, 1_000_000, &ops2, &obs2, false);
+        }
     }
 }
 
@@ -1230,7 +1279,10 @@ pub fn contradiction(ctx : &Ctx, out : &mut Out)
             sc.rules.push(RuleSpec{targets : vec!["zz".to_string()], sources : vec![leaf], script : vec!["fail".to_string()], raw_command : None});
             out.count("with-failing-neighbour");
         }
+        // a quarter of the scenarios on a file system whose reads come in pieces of 2 bytes
+        crate::memsys::set_default_read_chunk(if i % 4 == 1 { 2 } else { 0 });
         let driver = Driver::new(ClockMode::Fine, 1_000_000);
+        crate::memsys::set_default_read_chunk(0);
         let mut ops : Vec<Op> = vec![];
         let mut obs : Vec<String> = vec![];
         let user = |op : Op, ops : &mut Vec<Op>, obs : &mut Vec<String>| { driver.user(&op); driver.tick(); obs.push(world::show_obs(None, &driver.sys.disk())); ops.push(op); };
